@@ -166,6 +166,28 @@ theorem agreement_inv (cs cs' : List (Vector Int n))
   · have h2 := congrArg (fun l => (l.map fun G => G fun p => if p i && p j then 1 else 0).sum) this
     simpa [List.map_map, Function.comp_def] using h2
 
+/-- co-classification of one partition does not depend on the labels -/
+theorem coClass_inv (c : Vector Int n) {g : Int → Int} (hg : Injective g) : coClass (c.map g) = coClass c := by
+  funext i j
+  unfold coClass
+  exact modSum_map c hg _
+
+/-- `agreement_weighted`: the weighted co-classification matrix is invariant under a separate injective renaming of every partition -/
+theorem agreementW_inv (cs cs' : List (Vector Int n)) (wts : List Rat)
+    (h : List.Forall₂ (fun c' c => ∃ g : Int → Int, Injective g ∧ c' = c.map g) cs' cs) :
+    agreementW cs' wts = agreementW cs wts := by
+  have hmap : cs'.map coClass = cs.map coClass := by
+    induction h with
+    | nil => rfl
+    | cons hd _ ih =>
+      obtain ⟨g, hg, rfl⟩ := hd
+      simp only [List.map_cons, ih, coClass_inv _ hg]
+  have hlen : cs'.length = cs.length := by
+    have := congrArg List.length hmap
+    simpa using this
+  unfold agreementW
+  simp only [hmap, hlen]
+
 /-! ## gateway coefficient — known finding D16
 
 Full statement (what C14 asks): `∀ g, Injective g → gateway W (c.map g) = gateway W c`.
@@ -202,10 +224,64 @@ theorem gateway_index_error :
     | ok r => rw [hgw] at this; simp [Except.toOption] at this
   · decide +kernel
 
+/-- `gateway_coef_sign` depends on the labels only through their canonical ranks: two labellings with the same `relabel` (hence the same
+module *order*) give the same result or the same error — the precise sense in which the as-written routine is "label-free" -/
+theorem gateway_factor (W : AMat Rat n) (c c' : Vector Int n) (h : relabel c' = relabel c) (hk : numMods c' = numMods c) :
+    gateway W c' = gateway W c := by
+  unfold gateway gcoef gatewayIndexErr
+  simp only [h, hk]
+
+/-- **when the as-written routine raises**: exactly when some module with more than one node has at most as many nodes as its 0-based
+rank among the sorted labels; no other error is possible, and the matrix plays no role -/
+theorem gateway_error_iff (W : AMat Rat n) (c : Vector Int n) :
+    (gateway W c = .error .index ↔ gatewayIndexErr c = true) ∧ (∀ e, gateway W c = .error e → e = .index) ∧
+    (gatewayIndexErr c = true ↔ ∃ i, i < numMods c ∧ 1 < (members (relabel c) (i + 1)).length ∧ (members (relabel c) (i + 1)).length ≤ i) := by
+  have hcond : ∀ M : AMat Rat n, (∃ e, gcoef M c = .error e) ↔ gatewayIndexErr c = true := by
+    intro M
+    unfold gcoef
+    by_cases hc : gatewayIndexErr c = true
+    · simp [hc]
+    · simp [hc]
+  have herr : ∀ (M : AMat Rat n) e, gcoef M c = .error e → e = .index := by
+    intro M e he
+    unfold gcoef at he
+    by_cases hc : gatewayIndexErr c = true
+    · simp [hc] at he; exact he.symm
+    · simp [hc] at he
+  refine ⟨?_, ?_, ?_⟩
+  · unfold gateway
+    constructor
+    · intro h
+      cases h1 : gcoef (posPart (zeroDiag W)) c with
+      | error e => exact (hcond _).mp ⟨e, h1⟩
+      | ok v1 =>
+        cases h2 : gcoef (negPart (zeroDiag W)) c with
+        | error e => exact (hcond _).mp ⟨e, h2⟩
+        | ok v2 => simp [h1, h2, bind, Except.bind, pure, Except.pure] at h
+    · intro hc
+      obtain ⟨e, he⟩ := (hcond (posPart (zeroDiag W))).mpr hc
+      have := herr _ e he
+      subst this
+      simp [he, bind, Except.bind]
+  · intro e h
+    unfold gateway at h
+    cases h1 : gcoef (posPart (zeroDiag W)) c with
+    | error e1 =>
+      simp [h1, bind, Except.bind] at h
+      rw [← h]; exact herr _ e1 h1
+    | ok v1 =>
+      cases h2 : gcoef (negPart (zeroDiag W)) c with
+      | error e2 =>
+        simp [h1, h2, bind, Except.bind] at h
+        rw [← h]; exact herr _ e2 h2
+      | ok v2 => simp [h1, h2, bind, Except.bind, pure, Except.pure] at h
+  · unfold gatewayIndexErr
+    simp only [List.any_eq_true, List.mem_range, Bool.and_eq_true, decide_eq_true_eq]
+
 /-- `gateway_coef_sign` is invariant under every order-preserving renaming of the labels -/
 theorem gateway_mono_partial (W : AMat Rat n) (c : Vector Int n) {g : Int → Int} (hg : StrictMono g) :
     gateway W (c.map g) = gateway W c := by
-  unfold gateway gcoef
+  unfold gateway gcoef gatewayIndexErr
   simp only [relabel_strictMono c hg, numMods_map c hg.injective]
 
 /-! ## partition_distance: the contingency table -/
@@ -912,6 +988,16 @@ example : ∃ (ci : List Nat) (h : ci.length = 3), ls2ci [[2, 0], [1]] 0 = .ok c
   exact ⟨ci, h, h1, h2⟩
 
 example : (pnmTable (posPart signedW) c2)[1]? = some [1/4, 3/4] := by decide +kernel
+
+example : gatewayIndexErr (#v[3, 3, 2, 1] : Vector Int 4) = true ∧ gatewayIndexErr c2 = false := by decide +kernel
+example : gateway witnessW #v[3, 3, 2, 1] = .error .index := ((gateway_error_iff witnessW #v[3, 3, 2, 1]).1).mpr (by decide +kernel)
+example : gateway witnessW (c2.map (· + 100)) = gateway witnessW c2 :=
+  gateway_factor _ _ _ (relabel_strictMono c2 shift_mono) (by decide +kernel)
+example : agreementW [c1, c2] [1, 3] = some (AMat.ofFn fun i j =>
+    if i = j then 1 else if (i.val = 0 ∧ j.val = 1) ∨ (i.val = 1 ∧ j.val = 0) then 1/4 else
+    if i.val = 0 ∨ j.val = 0 then 0 else if (i.val = 2 ∧ j.val = 3) ∨ (i.val = 3 ∧ j.val = 2) then 1 else 3/4) := by decide +kernel
+example : agreementW [c1.map g7, c2.map (· + 100)] [1, 3] = agreementW [c1, c2] [1, 3] :=
+  agreementW_inv _ _ _ (.cons ⟨g7, g7_inj, rfl⟩ (.cons ⟨(· + 100), shift_mono.injective, rfl⟩ .nil))
 
 end Examples
 
